@@ -12,7 +12,8 @@ open Zc Zc.Sched Zc.C10
 
 /-- C13's part, in link terms: the scheduler of browser `b` asks (send `o`, which names `b`'s type).  A QU question (the first
 start-up query) is always multicast at that instant; a QM question is multicast at that instant unless the host multicast or heard
-the same QM question at most `dupQ` earlier.  The known answers are instances the host has received (`Link.asks`). -/
+the same QM question at most `dupQ` earlier.  The known answers are instances the host has received (`Link.asks`) — for a heard
+question: by the instant the scheduler asks (`o.t`: that is when the code compares the heard known answers with its own). -/
 def WireAsk (tr : Link.Trace) (b : Link.Br) (o : Send) : Prop :=
   if o.qtype = some true then
     ∃ sd ∈ Link.sends tr, sd.h = b.host ∧ sd.dst = none ∧ sd.t = o.t ∧ Link.asks tr b.host sd.t b.ty true sd.items = true
@@ -20,7 +21,7 @@ def WireAsk (tr : Link.Trace) (b : Link.Br) (o : Send) : Prop :=
     (∃ sd ∈ Link.sends tr, sd.h = b.host ∧ sd.dst = none ∧ o.t - 999 ≤ sd.t ∧ sd.t ≤ o.t ∧
         Link.asks tr b.host sd.t b.ty false sd.items = true)
     ∨ (∃ e ∈ Link.dlvs tr, e.h = b.host ∧ e.mc = true ∧ o.t - 999 ≤ e.t ∧ e.t ≤ o.t ∧
-        Link.asks tr b.host e.t b.ty false e.items = true)
+        Link.asks tr b.host o.t b.ty false e.items = true)
 
 /-- the browser `b`, created at `tb` on a host that is not closed, is a run of C10's two-container scheduler: constructed with the
 default question type, its type `n` among the browsed types; record updates may precede `start` (`pre0`), afterwards only record
@@ -133,7 +134,7 @@ theorem K3_of_browsers (tr : Link.Trace) (endT : Int)
           Link.dec_true]
         rcases hw with ⟨sd, hsd, h1, h2, h3, h4, h5⟩ | ⟨e, he, h1, h2, h3, h4, h5⟩
         · exact Or.inl ⟨sd, hsd, ⟨⟨⟨⟨h1, by rw [h2]; rfl⟩, by omega⟩, by omega⟩, h5⟩⟩
-        · exact Or.inr ⟨e, he, ⟨⟨⟨⟨h1, h2⟩, by omega⟩, by omega⟩, h5⟩⟩
+        · exact Or.inr ⟨e, he, ⟨⟨⟨⟨h1, h2⟩, by omega⟩, by omega⟩, Link.asks_mono (by omega) h5⟩⟩
       · left; exact hend
     · by_cases hend : x.1 + 120 + 5000 ≤ endT
       · right
@@ -143,7 +144,7 @@ theorem K3_of_browsers (tr : Link.Trace) (endT : Int)
           Link.dec_true]
         rcases hw with ⟨sd, hsd, h1, h2, h3, h4, h5⟩ | ⟨e, he, h1, h2, h3, h4, h5⟩
         · exact Or.inl ⟨sd, hsd, ⟨⟨⟨⟨h1, by rw [h2]; rfl⟩, by omega⟩, by omega⟩, h5⟩⟩
-        · exact Or.inr ⟨e, he, ⟨⟨⟨⟨h1, h2⟩, by omega⟩, by omega⟩, h5⟩⟩
+        · exact Or.inr ⟨e, he, ⟨⟨⟨⟨h1, h2⟩, by omega⟩, by omega⟩, Link.asks_mono (by omega) h5⟩⟩
       · left; exact hend
     · by_cases hend : x.1 + 120 + 14000 ≤ endT
       · right
@@ -153,7 +154,7 @@ theorem K3_of_browsers (tr : Link.Trace) (endT : Int)
           Link.dec_true]
         rcases hw with ⟨sd, hsd, h1, h2, h3, h4, h5⟩ | ⟨e, he, h1, h2, h3, h4, h5⟩
         · exact Or.inl ⟨sd, hsd, ⟨⟨⟨⟨h1, by rw [h2]; rfl⟩, by omega⟩, by omega⟩, h5⟩⟩
-        · exact Or.inr ⟨e, he, ⟨⟨⟨⟨h1, h2⟩, by omega⟩, by omega⟩, h5⟩⟩
+        · exact Or.inr ⟨e, he, ⟨⟨⟨⟨h1, h2⟩, by omega⟩, by omega⟩, Link.asks_mono (by omega) h5⟩⟩
       · left; exact hend
 
 /-! ### K3b, the main case: a record new to the scheduler, learned after `start`, 75 % point after the start-up phase -/
@@ -266,7 +267,7 @@ theorem K3b_windows_main (tr : Link.Trace) (b : Link.Br) (s : Link.Svc) (types :
     (rest : List (Int × Op)) (s' : Sched2.S2) (outs : List Send)
     (hidle : IdleOps pre0) (hnew0 : Untouched a pre0) (hpre : Active pre) (hnew : Untouched a pre)
     (hact : Active evsA) (hun : Untouched a evsA)
-    (hlate : tb + d + 14000 ≤ t + 750 * ttl) (httl : 1125 ≤ ttl) (htb : tb + 120 + 14000 + 10000 ≤ t + 750 * ttl)
+    (hlate : tb + d + 14000 ≤ t + 750 * ttl) (httl : 1125 ≤ ttl) (htb : tb + 120 + 14000 + 10000 + 999 ≤ t + 750 * ttl)
     (hbeyond : t + 850 * ttl + 20000 < tn)
     (hex : Sched2.exec2 (browserCfg types 10000 none) {} tS
       (pre0 ++ (tb, .start d) :: (pre ++ (t, .ptr a n ttl t) :: (evsA ++ (tn, opn) :: rest))) = .ok (s', outs))
